@@ -99,6 +99,9 @@ mut("C17-revert-lazylib-fatal-fix", "fint.c",
 mut("C13-revert-syntax-error-undo-fix", "axlcomp.c",
     "scopeBindSkipStep(stab);", "(void)stab;", count=2)
 
+mut("C18-revert-exit-status-clamp", "main.c",
+    "	return rc > 255 ? 255 : rc;", "	return rc;")
+
 
 def main():
     out = os.path.join(os.path.dirname(os.path.abspath(__file__)), "mutants")
